@@ -6,6 +6,7 @@ package PKGNAME
 // program itself are symbolic / exhaustively chosen.
 
 import (
+	otlptrace "go.opentelemetry.io/collector/pdata/internal/data/protogen/trace/v1"
 	"go.opentelemetry.io/collector/pdata/pcommon"
 )
 
@@ -68,7 +69,7 @@ func VerifC07SpanSlice() {
 		vs[1].m = append(vs[1].m, t)
 	}
 	for step := 0; step < K; step++ {
-		op := vChoice("op", 6)
+		op := vChoice("op", 7)
 		x := vs[vChoice("x", 3)]
 		switch op {
 		case 0: // AppendEmpty
@@ -158,6 +159,36 @@ func VerifC07SpanSlice() {
 				y.m[i] = t
 			}
 			vc07sCheck(vs, lbl+"/independent-after-dest-mutation")
+		case 6: // Sort by tag: a permutation of the same element objects, in order
+			if len(x.m) < 2 {
+				vAssume(false)
+			}
+			before := append([]*otlptrace.Span(nil), (*x.s.orig)...)
+			if !vc07sGuard("sort/no-panic", func() {
+				x.s.Sort(func(a, b Span) bool { return a.StartTimestamp() < b.StartTimestamp() })
+			}) {
+				return
+			}
+			vAssert(x.s.Len() == len(before), "sort/length-unchanged")
+			if x.s.Len() != len(before) {
+				return
+			}
+			for i := range before {
+				n := 0
+				for j := 0; j < x.s.Len(); j++ {
+					if (*x.s.orig)[j] == before[i] {
+						n++
+					}
+				}
+				vAssert(n == 1, "sort/every-element-object-kept-exactly-once")
+			}
+			for i := 0; i+1 < x.s.Len(); i++ {
+				vAssert(uint64(x.s.At(i).StartTimestamp()) <= uint64(x.s.At(i+1).StartTimestamp()), "sort/elements-in-order")
+			}
+			for i := 0; i < x.s.Len(); i++ {
+				x.m[i] = uint64(x.s.At(i).StartTimestamp())
+			}
+			vc07sCheck(vs, "sort")
 		case 5: // mutate one element
 			if len(x.m) == 0 {
 				vAssume(false)
